@@ -40,6 +40,7 @@ type Op struct {
 type Step struct {
 	G     string   `json:"g"`     // granted thread: a<t> | ra | es | e
 	At    string   `json:"at"`    // yield point it was waiting at
+	To    string   `json:"to"`    // where it is afterwards
 	Chain []string `json:"chain"` // model steps this grant stands for
 	Obs   []uint64 `json:"obs"`   // observation after the system went quiet
 	Odd   string   `json:"odd,omitempty"`
@@ -54,23 +55,23 @@ type Event struct {
 }
 
 type Case struct {
-	Name    string   `json:"name,omitempty"`
-	NQ      int      `json:"nq"`
-	Progs   [][]Op   `json:"progs"`
-	Grants  []string `json:"grants,omitempty"` // input: steps to replay first
-	Policy  string   `json:"policy,omitempty"` // how to continue: first | random | stop
-	Seed    uint64   `json:"seed,omitempty"`
-	Bias    int      `json:"bias,omitempty"`
-	Probe   bool     `json:"probe,omitempty"` // allow DrainCommandQueue's send while runAsync is not in its select
-	Hold    string   `json:"hold,omitempty"`  // thread:point kept waiting while anything else can move
-	Cfg     string   `json:"cfg,omitempty"` // model configuration to compare with: fixed | orig | cap1 | rerun
-	Steps   []Step   `json:"steps,omitempty"`
-	Hung    bool     `json:"hung"`
-	Skipped []string `json:"skipped,omitempty"` // requested grants that were not possible
-	Log     []Event  `json:"log,omitempty"`
-	Dump    string   `json:"dump,omitempty"`
+	Name    string     `json:"name,omitempty"`
+	NQ      int        `json:"nq"`
+	Progs   [][]Op     `json:"progs"`
+	Grants  []string   `json:"grants,omitempty"` // input: steps to replay first
+	Policy  string     `json:"policy,omitempty"` // how to continue: first | random | stop
+	Seed    uint64     `json:"seed,omitempty"`
+	Bias    int        `json:"bias,omitempty"`
+	Probe   bool       `json:"probe,omitempty"` // allow DrainCommandQueue's send while runAsync is not in its select
+	Hold    string     `json:"hold,omitempty"`  // thread:point kept waiting while anything else can move
+	Cfg     string     `json:"cfg,omitempty"`   // model configuration to compare with: fixed | orig | cap1 | rerun
+	Steps   []Step     `json:"steps,omitempty"`
+	Hung    bool       `json:"hung"`
+	Skipped []string   `json:"skipped,omitempty"` // requested grants that were not possible
+	Log     []Event    `json:"log,omitempty"`
+	Dump    string     `json:"dump,omitempty"`
 	Alts    [][]string `json:"alts,omitempty"` // grantable threads before each step (exploration)
-	Coq     string   `json:"coq,omitempty"`
+	Coq     string     `json:"coq,omitempty"`
 }
 
 // ---------------------------------------------------------------- scheduler
@@ -91,9 +92,9 @@ type thread struct {
 	done    bool
 	grant   chan struct{}
 	// application threads
-	ops  []Op
-	cur  atomic.Int64 // index of the op being executed (== number of completed ops when idle)
-	rets atomic.Int64
+	ops     []Op
+	cur     atomic.Int64 // index of the op being executed (== number of completed ops when idle)
+	rets    atomic.Int64
 	sending bool // granted at drain:signal while runAsync was busy: blocked in the channel send
 	// engine threads
 	started bool
@@ -108,24 +109,25 @@ type arrival struct {
 }
 
 type sched struct {
-	d        *driver.Driver
-	qs       []*driver.CommandQueue
-	arrivals chan arrival
-	probe    bool
-	free     atomic.Bool
-	me       int64
-	byGoid   map[int64]*thread
-	apps     []*thread
-	ra       *thread
-	engs     []*thread
-	log      []Event
-	qshadow  [][2]uint64
-	gpuPort  sim.Port
-	eng      *sim.SerialEngine
-	cmdQ     map[uint64]int // command id -> queue index
-	cmdLat   map[uint64]int
-	gpuQ     atomic.Int64 // queue whose response event is being handled
-	lastRet  int          // queue of the last response consumed by processReturnReq
+	d          *driver.Driver
+	qs         []*driver.CommandQueue
+	arrivals   chan arrival
+	probe      bool
+	free       atomic.Bool
+	me         int64
+	byGoid     map[int64]*thread
+	apps       []*thread
+	ra         *thread
+	engs       []*thread
+	log        []Event
+	qshadow    [][2]uint64
+	gpuPort    sim.Port
+	eng        *sim.SerialEngine
+	cmdQ       map[uint64]int // command id -> queue index
+	cmdLat     map[uint64]int
+	gpuQ       atomic.Int64 // queue whose response event is being handled
+	lastRet    int          // queue of the last response consumed by processReturnReq
+	lstBlocked map[*driver.CommandQueue]bool
 }
 
 // ---------------------------------------------------------------- the harness' GPU
@@ -134,7 +136,8 @@ type sched struct {
 // is answered by a LaunchKernelRsp delivered by an engine event `lat` cycles later.
 type gpuConn struct {
 	sim.HookableBase
-	s *sched
+	s   *sched
+	lat func() int // stress mode: latency of every answer
 }
 
 type rspEvent struct {
@@ -160,6 +163,9 @@ func (c *gpuConn) NotifySend() {
 		}
 		id := req.PacketAddress
 		lat := s.cmdLat[id]
+		if c.lat != nil {
+			lat = c.lat()
+		}
 		if lat < 1 {
 			lat = 1
 		}
@@ -502,7 +508,7 @@ func (s *sched) observe() []uint64 {
 			id, _ := strconv.ParseUint(strings.TrimPrefix(c.GetID(), "c"), 10, 64)
 			head = id + 1
 		}
-		o = append(o, uint64(n), head, uint64(driver.VerifNumListeners(q)), b2u(q.IsRunning))
+		o = append(o, uint64(n), head, s.numListeners(q), b2u(q.IsRunning))
 	}
 	o = append(o, 99)
 	for _, a := range s.apps {
@@ -510,6 +516,26 @@ func (s *sched) observe() []uint64 {
 	}
 	o = append(o, b2u(s.enabled(s.ra)), b2u(s.enabled(s.waitingEng())), b2u(s.enabled(s.activeEng())))
 	return o
+}
+
+// numListeners must not block the scheduler: a goroutine of the code under
+// test may be blocked while it holds listenerMutex (then 98 is reported).
+func (s *sched) numListeners(q *driver.CommandQueue) uint64 {
+	if s.lstBlocked[q] {
+		return 98
+	}
+	ch := make(chan int, 1)
+	go func() { ch <- driver.VerifNumListeners(q) }()
+	select {
+	case n := <-ch:
+		return uint64(n)
+	case <-time.After(50 * time.Millisecond):
+		if s.lstBlocked == nil {
+			s.lstBlocked = map[*driver.CommandQueue]bool{}
+		}
+		s.lstBlocked[q] = true
+		return 98
+	}
 }
 
 func b2u(b bool) uint64 {
@@ -618,6 +644,12 @@ func allQuiet(me int64) {
 	}
 }
 
+// hungCases counts runs that ended with every goroutine blocked; each leaves its
+// goroutines behind, so generation stops after maxHung of them.
+var hungCases, maxHung = 0, 3
+
+func enough() bool { return hungCases >= maxHung }
+
 func runCase(c *Case, maxSteps int, explore int) {
 	me := goid()
 	allQuiet(me)
@@ -693,7 +725,7 @@ func runCase(c *Case, maxSteps int, explore int) {
 				if c.Hold != "" { // keep one thread waiting at one yield point while anything else can move
 					var rest []string
 					for _, n := range names {
-						if th := s.byName(n); !(strings.HasPrefix(c.Hold, n+":") && th != nil && th.point == c.Hold[len(n)+1:]) {
+						if th := s.byName(n); th == nil || !held(c.Hold, n, th.point) {
 							rest = append(rest, n)
 						}
 					}
@@ -714,7 +746,7 @@ func runCase(c *Case, maxSteps int, explore int) {
 					}
 				}
 			default:
-				name = names[0]
+				name = prio(names, c.Policy)
 			}
 			if names == nil {
 				break
@@ -759,10 +791,17 @@ func runCase(c *Case, maxSteps int, explore int) {
 			}
 		}
 		c.Grants = append(c.Grants, name)
-		c.Steps = append(c.Steps, Step{G: name, At: old, Chain: ch, Obs: obs, Odd: odd})
+		to := th.point
+		if th.done {
+			to = "gone"
+		} else if th.parked {
+			to += ":blocked"
+		}
+		c.Steps = append(c.Steps, Step{G: name, At: old, To: to, Chain: ch, Obs: obs, Odd: odd})
 	}
 	c.Hung = hung
 	if hung {
+		hungCases++
 		c.Dump = string(stackBuf[:runtime.Stack(stackBuf, true)])
 	}
 	c.Coq = coqCase(c)
@@ -784,7 +823,13 @@ func runCase(c *Case, maxSteps int, explore int) {
 		}
 	}
 	if !hung {
-		s.d.Terminate()
+		// stop runAsync; if it is stuck (a defect of the code under test) leave it behind
+		done := make(chan struct{})
+		go func() { s.d.Terminate(); close(done) }()
+		select {
+		case <-done:
+		case <-time.After(300 * time.Millisecond):
+		}
 	}
 	driver.VerifYieldHook = nil
 }
@@ -864,6 +909,44 @@ func genCase(r *vh.Rng, cfg string) *Case {
 	return c
 }
 
+// held: is thread n at point pt one of the comma-separated "thread:point" holds?
+func held(holds, n, pt string) bool {
+	for _, h := range strings.Split(holds, ",") {
+		if h == n+":"+pt {
+			return true
+		}
+	}
+	return false
+}
+
+// prio picks the continuation of a schedule: "first" = application threads,
+// runAsync, engine; "eng" = engine, application threads, runAsync; "ra" =
+// runAsync, engine, application threads.
+func prio(names []string, policy string) string {
+	rank := func(n string) int {
+		k := 1 // application thread
+		if n == "ra" {
+			k = 2
+		} else if n[0] == 'e' {
+			k = 3
+		}
+		switch policy {
+		case "eng":
+			return []int{0, 1, 2, 0}[k]
+		case "ra":
+			return []int{0, 2, 0, 1}[k]
+		}
+		return k
+	}
+	best := names[0]
+	for _, n := range names {
+		if rank(n) < rank(best) {
+			best = n
+		}
+	}
+	return best
+}
+
 func noopOp(q int, id uint64) Op           { return Op{Op: "enq", Q: q, ID: id} }
 func asyncOp(q int, id uint64, lat int) Op { return Op{Op: "enq", Q: q, ID: id, K: "async", Lat: lat} }
 func drainOp(q int) Op                     { return Op{Op: "drain", Q: q} }
@@ -884,6 +967,8 @@ func shapes() []*Case {
 		"ra:ra:test", "ra:ra:continue", "ra:ra:tick", "e:eng:returned")
 	add(2, [][]Op{{asyncOp(1, 1, 40), drainOp(1)}, {noopOp(0, 2), drainOp(0), drainOp(0), noopOp(0, 3), drainOp(0)}},
 		"ra:ra:test", "ra:ra:continue", "ra:ra:pause")
+	add(2, [][]Op{{noopOp(0, 1), drainOp(0)}, {drainOp(1), noopOp(1, 2), drainOp(1)}},
+		"ra:ra:test,e:eng:run,a1:app:idle", "ra:ra:continue,e:eng:run,a1:app:idle", "ra:ra:test,e:eng:returned")
 	add(1, [][]Op{{noopOp(0, 1), noopOp(0, 2), drainOp(0)}, {drainOp(0), drainOp(0)}}, "a0:drain:signal", "a0:drain:check")
 	add(2, [][]Op{{noopOp(0, 1), noopOp(0, 2), drainOp(0)}, {drainOp(1), drainOp(1)}}, "a0:drain:signal")
 	add(2, [][]Op{{noopOp(0, 1), noopOp(0, 2), noopOp(0, 3), drainOp(0)}}, "", "ra:ra:test")
@@ -895,7 +980,7 @@ func shapes() []*Case {
 func shapedCases(r *vh.Rng, cfg string, reps, maxSteps int) []*Case {
 	var out []*Case
 	for _, sh := range shapes() {
-		for k := 0; k < reps; k++ {
+		for k := 0; k < reps && !enough(); k++ {
 			c := &Case{NQ: sh.NQ, Progs: sh.Progs, Hold: sh.Hold, Probe: true, Policy: "random", Seed: r.U64(), Cfg: cfg}
 			runCase(c, maxSteps, 0)
 			out = append(out, c)
@@ -904,29 +989,53 @@ func shapedCases(r *vh.Rng, cfg string, reps, maxSteps int) []*Case {
 	return out
 }
 
-// releasePoint: index of the first step at which the held thread was let go.
-func releasePoint(c *Case) int {
+// holdPoints: lengths of the prefixes after which the held threads (all but
+// at most one of them, when there are several holds) sit at their hold points.
+func holdPoints(c *Case) []int {
+	var ks []int
+	need := len(strings.Split(c.Hold, ",")) - 1
+	if need < 1 {
+		need = 1
+	}
+	at := map[string]string{}
 	for k, st := range c.Steps {
-		if c.Hold != "" && c.Hold == st.G+":"+st.At {
-			return k
+		at[st.G] = st.To
+		if st.G == "es" { // the goroutine that acquired engineMutex is "e" from now on
+			at["e"] = st.To
+			delete(at, "es")
+		}
+		n := 0
+		for g, pt := range at {
+			if held(c.Hold, g, pt) {
+				n++
+			}
+		}
+		if n >= need && held(c.Hold, st.G, st.To) {
+			ks = append(ks, k+1)
 		}
 	}
-	return len(c.Steps)
+	return ks
 }
 
 // exploreAll runs every grant sequence that differs from an already executed
 // one within `depth` steps after the prefix pre0 (the rest follows the "first" policy).
-func exploreAll(base *Case, pre0 []string, depth, maxRuns, maxSteps int) []*Case {
+func exploreAll(base *Case, pre0 []string, depth, maxRuns, maxSteps int, pols ...string) []*Case {
 	var out []*Case
+	if len(pols) == 0 {
+		pols = []string{"first"}
+	}
 	todo := [][]string{pre0}
 	seen := map[string]bool{strings.Join(pre0, ","): true}
 	lim := len(pre0) + depth
-	for len(todo) > 0 && len(out) < maxRuns {
+	for len(todo) > 0 && len(out) < maxRuns && !enough() {
 		pre := todo[0]
 		todo = todo[1:]
-		c := &Case{NQ: base.NQ, Progs: base.Progs, Grants: append([]string{}, pre...), Policy: "first", Cfg: base.Cfg, Probe: base.Probe}
-		runCase(c, maxSteps, lim)
-		out = append(out, c)
+		var c *Case
+		for _, pol := range pols {
+			c = &Case{NQ: base.NQ, Progs: base.Progs, Grants: append([]string{}, pre...), Policy: pol, Cfg: base.Cfg, Probe: base.Probe}
+			runCase(c, maxSteps, lim)
+			out = append(out, c)
+		}
 		start := len(pre)
 		if start < len(pre0) {
 			start = len(pre0)
@@ -953,20 +1062,32 @@ func exploreAll(base *Case, pre0 []string, depth, maxRuns, maxSteps int) []*Case
 // held thread is released.
 func exploreAround(r *vh.Rng, cfg string, depth, runsPer, maxSteps int) []*Case {
 	var out []*Case
-	for i, sh := range shapes() {
-		if sh.Hold == "" || i%2 == 1 && runsPer < 100 {
+	for _, sh := range shapes() {
+		if enough() || !(strings.Contains(sh.Hold, ",") || strings.HasPrefix(sh.Hold, "a0:drain:signal")) {
 			continue
 		}
-		c := &Case{NQ: sh.NQ, Progs: sh.Progs, Hold: sh.Hold, Probe: true, Policy: "random", Seed: r.U64(), Cfg: cfg}
-		runCase(c, maxSteps, 0)
-		k := releasePoint(c) - 2
-		if k < 0 {
-			k = 0
+		seen := map[string]bool{}
+		for rep := 0; rep < 4; rep++ {
+			c := &Case{NQ: sh.NQ, Progs: sh.Progs, Hold: sh.Hold, Probe: true, Policy: "random", Seed: r.U64(), Cfg: cfg}
+			runCase(c, maxSteps, 0)
+			out = append(out, c)
+			ks := holdPoints(c)
+			if len(ks) > 8 {
+				ks = ks[:8]
+			}
+			for _, k := range ks {
+				if k > len(c.Grants) {
+					k = len(c.Grants)
+				}
+				key := strings.Join(c.Grants[:k], ",")
+				if seen[key] || enough() {
+					continue
+				}
+				seen[key] = true
+				out = append(out, exploreAll(&Case{NQ: sh.NQ, Progs: sh.Progs, Cfg: cfg, Probe: true}, c.Grants[:k], depth,
+					runsPer, maxSteps, "first", "eng", "ra")...)
+			}
 		}
-		if k > len(c.Grants) {
-			k = len(c.Grants)
-		}
-		out = append(out, exploreAll(&Case{NQ: sh.NQ, Progs: sh.Progs, Cfg: cfg, Probe: true}, c.Grants[:k], depth, runsPer, maxSteps)...)
 	}
 	return out
 }
@@ -974,19 +1095,50 @@ func exploreAround(r *vh.Rng, cfg string, depth, runsPer, maxSteps int) []*Case 
 // ---------------------------------------------------------------- stress
 
 type StressResult struct {
-	Iterations int64  `json:"iterations"`
+	Iterations int64   `json:"iterations"`
 	Seconds    float64 `json:"seconds"`
-	Hung       bool   `json:"hung"`
-	Dump       string `json:"dump,omitempty"`
+	Hung       bool    `json:"hung"`
+	Dump       string  `json:"dump,omitempty"`
 }
 
-func stress(seconds float64, workers int, target int64) StressResult {
+// stress: free-running goroutines on one driver. Every worker has its own
+// queue; with `mix` it also issues asynchronous commands answered by the
+// harness' GPU after 1-40 cycles (so the engine is often kept running by another
+// queue while a drain is issued) and now and then drains a queue shared by all
+// workers right after enqueueing two no-ops to it. With `chaos` the yield hook
+// sleeps 0-200 us at about every 12th yield point, which stretches the windows
+// between the protocol's steps (for instance between Engine.Continue() and the
+// engineRunning test of runAsync) without controlling the schedule.
+func stress(seconds float64, workers int, target int64, mix, chaos bool, seed uint64) StressResult {
 	driver.VerifYieldHook = nil
-	d := driver.MakeBuilder().WithEngine(sim.NewSerialEngine()).
+	var rnd atomic.Uint64
+	rnd.Store(seed*0x9e3779b97f4a7c15 + 1)
+	next := func() uint64 {
+		z := rnd.Add(0x9e3779b97f4a7c15)
+		z = (z ^ (z >> 30)) * 0xbf58476d1ce4e5b9
+		z = (z ^ (z >> 27)) * 0x94d049bb133111eb
+		return z ^ (z >> 31)
+	}
+	if chaos {
+		driver.VerifYieldHook = func(point string) {
+			if r := next(); r%12 == 0 {
+				time.Sleep(time.Duration((r>>8)%200) * time.Microsecond)
+			}
+		}
+	}
+	s := &sched{cmdQ: map[uint64]int{}, cmdLat: map[uint64]int{}}
+	s.free.Store(true)
+	s.eng = sim.NewSerialEngine()
+	d := driver.MakeBuilder().WithEngine(s.eng).
 		WithPageTable(vm.NewPageTable(12)).WithLog2PageSize(12).Build("Driver")
+	d.RegisterGPU(sim.NewPort(nil, 4, 4, "GPU1.CP"), driver.DeviceProperties{CUCount: 4, DRAMSize: 1 << 24})
+	s.gpuPort = d.GetPortByName("GPU")
+	(&gpuConn{s: s, lat: func() int { return 1 + int(next()%40) }}).PlugIn(s.gpuPort)
 	d.Run()
 	var iters int64
 	var stop atomic.Bool
+	per := make([]atomic.Int64, workers) // every worker must keep returning from its drains
+	shared := d.CreateCommandQueue(d.Init())
 	for w := 0; w < workers; w++ {
 		ctx := d.Init()
 		go func(w int) {
@@ -995,25 +1147,43 @@ func stress(seconds float64, workers int, target int64) StressResult {
 				if n%5000 == 4999 && n < 40000 {
 					q = d.CreateCommandQueue(ctx)
 				}
-				d.Enqueue(q, &driver.NoopCommand{ID: "a"})
+				if mix && next()%4 == 0 {
+					d.Enqueue(q, &driver.LaunchKernelCommand{ID: "k"})
+				} else {
+					d.Enqueue(q, &driver.NoopCommand{ID: "a"})
+				}
 				if n%3 != 0 {
 					d.Enqueue(q, &driver.NoopCommand{ID: "b"})
 				}
 				d.DrainCommandQueue(q)
+				if mix && next()%8 == 0 {
+					d.Enqueue(shared, &driver.NoopCommand{ID: "s"})
+					d.Enqueue(shared, &driver.NoopCommand{ID: "t"})
+					d.DrainCommandQueue(shared)
+				}
 				atomic.AddInt64(&iters, 1)
+				per[w].Add(1)
 			}
 		}(w)
 	}
 	t0 := time.Now()
-	last, lastT := int64(-1), time.Now()
+	lastN := make([]int64, workers)
+	lastT := make([]time.Time, workers)
+	for w := range lastT {
+		lastN[w], lastT[w] = -1, time.Now()
+	}
 	res := StressResult{}
 	for {
 		time.Sleep(50 * time.Millisecond)
 		n := atomic.LoadInt64(&iters)
-		if n != last {
-			last, lastT = n, time.Now()
-		} else if time.Since(lastT) > 3*time.Second {
-			res.Hung = true
+		for w := range per {
+			if k := per[w].Load(); k != lastN[w] {
+				lastN[w], lastT[w] = k, time.Now()
+			} else if time.Since(lastT[w]) > 3*time.Second {
+				res.Hung = true
+			}
+		}
+		if res.Hung {
 			res.Dump = string(stackBuf[:runtime.Stack(stackBuf, true)])
 			break
 		}
@@ -1040,17 +1210,20 @@ func main() {
 	exDepth := flag.Int("explore", 0, "exhaustive exploration depth (0 = none)")
 	exRuns := flag.Int("explore-runs", 2000, "")
 	shaped := flag.Int("shaped", 2, "random runs per shaped program and hold")
-	around := flag.Int("around", 0, "exploration depth around the release point of each shape's held thread")
+	around := flag.Int("around", -1, "exploration depth at the hold points of each shape (0 = the three continuation policies only, -1 = off)")
 	aroundRuns := flag.Int("around-runs", 40, "")
+	flag.IntVar(&maxHung, "max-hung", 3, "stop generating after this many hung runs")
 	stressS := flag.Float64("stress", 0, "run the un-instrumented stress loop for this many seconds")
 	stressW := flag.Int("workers", 8, "")
+	stressMix := flag.Bool("mix", false, "stress: asynchronous commands and a shared queue as well")
+	stressChaos := flag.Bool("chaos", false, "stress: random short sleeps at the yield points")
 	stressN := flag.Int64("stress-iters", 0, "stop the stress loop after this many iterations instead")
 	flag.Parse()
 
 	var result interface{}
 	switch {
 	case *stressS > 0 || *stressN > 0:
-		result = stress(*stressS, *stressW, *stressN)
+		result = stress(*stressS, *stressW, *stressN, *stressMix, *stressChaos, *seed)
 	case *replay != "":
 		var cases []*Case
 		data, err := os.ReadFile(*replay)
@@ -1089,13 +1262,13 @@ func main() {
 	default:
 		r := vh.NewRng(*seed)
 		var cases []*Case
-		for i := 0; i < *n; i++ {
+		for i := 0; i < *n && !enough(); i++ {
 			c := genCase(r.Fork(), *cfg)
 			runCase(c, *maxSteps, 0)
 			cases = append(cases, c)
 		}
 		cases = append(cases, shapedCases(r.Fork(), *cfg, *shaped, *maxSteps)...)
-		if *around > 0 {
+		if *around >= 0 {
 			cases = append(cases, exploreAround(r.Fork(), *cfg, *around, *aroundRuns, *maxSteps)...)
 		}
 		result = cases
